@@ -119,16 +119,17 @@ func (c *Conversation) processDataMessageWithRawErrors(header, msg []byte) (plai
 		return
 	}
 
-	if err = c.keys.checkMessageCounter(dataMessage); err != nil {
-		return
-	}
-
 	sessionKeys, err := c.keys.calculateDHSessionKeys(dataMessage.recipientKeyID, dataMessage.senderKeyID, c.version)
 	if err != nil {
 		return
 	}
 
 	if err = dataMessage.checkSign(sessionKeys.receivingMACKey, header, c.version); err != nil {
+		return
+	}
+
+	// the counter is checked and stored only for authenticated messages
+	if err = c.keys.checkMessageCounter(dataMessage); err != nil {
 		return
 	}
 
